@@ -80,8 +80,8 @@ MUT = {
         'regen_second': ('mir-gen.c', '''  if (func_item->u.func->machine_code != NULL) {
     gen_assert (func_item->u.func->call_addr != NULL);''', '''  if (0 && func_item->u.func->machine_code != NULL) {
     gen_assert (func_item->u.func->call_addr != NULL);'''),
-        'no_restore': ('mir-gen.c', '  _MIR_restore_func_insns (ctx, func_item);\n  /* ??? We should use atomic',
-                       '  if (optimize_level < 3) _MIR_restore_func_insns (ctx, func_item);\n  /* ??? We should use atomic'),
+        'no_restore': ('mir-gen.c', '  _MIR_restore_func_insns (ctx, func_item);\n  func_item->data = saved_data;',
+                       '  if (optimize_level < 3) _MIR_restore_func_insns (ctx, func_item);\n  func_item->data = saved_data;'),
         'restore_lref': ('mir.c', '''    lref->label = lref->orig_label;
     lref->label2 = lref->orig_label2;''', '''    lref->label = lref->orig_label;'''),
         'dup_shares_labels': ('mir.c', '''    for (n = start_label_nop; n < bound_label_nop; n++)
